@@ -6,8 +6,11 @@ import jsonschema
 here = os.path.dirname(os.path.dirname(os.path.abspath(__file__)))
 props = [json.loads(l)["id"] for l in open(os.path.join(here, "properties.jsonl"))]
 checks, na = [], []
+enabled = set(open(os.path.join(here, "manifest.d", "ENABLED")).read().split())
 for f in sorted(glob.glob(os.path.join(here, "manifest.d", "C*.json"))):
     frag = json.load(open(f))
+    if frag["property_id"] not in enabled and "not_applicable" not in frag:
+        continue   # built but not yet validated on the unchanged tree: not claimed
     if "not_applicable" in frag:
         na.append({"property_id": frag["property_id"], "reason": frag["not_applicable"]})
         continue
